@@ -15,6 +15,7 @@
 -/
 import KmipModel.Lemmas.PlanLemmas
 import KmipModel.Lemmas.DispatchLemmas
+import KmipModel.Lemmas.DispatchDepthLemmas
 import KmipModel.Gen.Schema
 import KmipModel.Pinned.AttrSpec
 namespace Kmip.C06
@@ -319,6 +320,44 @@ theorem unknown_attribute_value_reencode (S : Schema) (t : Item) (h : t.InRange)
       encK S 1 .any t.tag (.any (some t)) ver = .ok ([t], ver) :=
   ⟨decK_any_enc S t h fuel hf ver rs, encK_any S 0 t ver⟩
 
+/-! ### 7 — every nesting depth -/
+
+/-- 7a. **whatever `unmarshal` accepts is well dispatched at every depth** (any schema, any target type, any
+    bytes): the checker `wdTop` walks the decoded value as the eight typed decoders produced it and demands of
+    EVERY interface value it meets — the payload of every batch item, the value of every attribute (in payloads,
+    template attributes, key values, …), the object of every Get / Register / Import / Export payload — that
+    its dynamic type is the one the dispatch tables give for the operation code / attribute name / object type
+    found next to it (7b–7d say so for the three kinds of site). The fuel `decFuel bs.length` is the decoder's
+    own: the walk goes exactly as deep as the decoder went. -/
+theorem decoded_value_well_dispatched (S : Schema) (d tag : Nat) (bs : Bytes) (v : Val)
+    (h : unmarshal S d tag bs = .ok v) : wdTop S (decFuel bs.length) d v = true :=
+  unmarshal_wd S d tag bs v h
+
+/-- 7b. what the checker demands of a request batch item (positive fuel): the registered request type. -/
+theorem checked_request_item (S : Schema) (n id d : Nat) (op bid x me : Val)
+    (h : wdCustom S (n + 2) Cust.requestBatchItem id (.struct [op, bid, .iface (some (d, x)), me]) = true) :
+    d = S.payloadDyn op.asInt.toNat false :=
+  wdCustom_requestItem h
+
+/-- 7c. … of an attribute: the value type registered for its name (with 3e': the specified one). -/
+theorem checked_attribute (S : Schema) (n id d : Nat) (name : Bytes) (idx x : Val)
+    (h : wdCustom S (n + 2) Cust.attr id (.struct [.text name, idx, .iface (some (d, x))]) = true) :
+    d = S.attrDyn name :=
+  wdCustom_attr h
+
+/-- 7d. … of a Get response: the object type registered for the object type field. -/
+theorem checked_get_response (S : Schema) (n id d : Nat) (ot uid x : Val)
+    (h : wdCustom S (n + 2) Cust.getResponse id (.struct [ot, uid, .iface (some (d, x))]) = true) :
+    S.objectDyn ot.asInt.toNat = some d :=
+  wdCustom_getResponse h
+
+/-- 7e. for the library's messages. -/
+theorem gen_decoded_message_well_dispatched (response : Bool) (bs : Bytes) (v : Val)
+    (h : unmarshal Gen.schema (if response then Gen.responseMessageDyn else Gen.requestMessageDyn) 0 bs = .ok v) :
+    wdTop Gen.schema (decFuel bs.length) (if response then Gen.responseMessageDyn else Gen.requestMessageDyn) v
+      = true :=
+  unmarshal_wd _ _ _ _ _ h
+
 /-! ### non-vacuity
 
   No count and no "unused" code is hard-coded: an operation / object type that is NOT registered is computed
@@ -400,6 +439,29 @@ def decodedMessageDyn : Option (Nat × Nat) :=
 
 set_option maxRecDepth 100000 in
 example : decodedMessageDyn = some (freshOp, Gen.schema.unknownPayloadDyn) := by decide +kernel
+
+/-- 7a is not vacuous: the checker REJECTS values that are not well dispatched — an attribute two levels below
+    a batch item (AddAttribute request → Attribute) whose value sits behind the wrong dynamic type, and a batch
+    item whose payload has the type of another operation — and accepts the corrected ones. -/
+def addAttributeMessage (payloadDyn attrValueDyn : Nat) : Val :=
+  .ptr (some (.struct [
+    .struct [.struct [.int 1, .int 4], .int 0, .text [], .text [], .ptr none, .ptr none, .list [],
+             .ptr none, .int 0, .ptr none, .ptr none, .int 1],
+    .list [.struct [.int 0xD, .bytes none,
+      .iface (some (payloadDyn, .ptr (some (.struct [.text [0x31],
+        .struct [.text [0x43, 0x6F, 0x6D, 0x6D, 0x65, 0x6E, 0x74], .ptr none,
+          .iface (some (attrValueDyn, .text [0x68, 0x69]))]])))),
+      .ptr none]]]))
+
+example :
+    wdTop Gen.schema 64 Gen.requestMessageDyn
+      (addAttributeMessage (Gen.schema.payloadDyn 0xD false)
+        (Gen.schema.attrDyn [0x43, 0x6F, 0x6D, 0x6D, 0x65, 0x6E, 0x74])) = true ∧
+    wdTop Gen.schema 64 Gen.requestMessageDyn
+      (addAttributeMessage (Gen.schema.payloadDyn 0xD false) Gen.schema.valueDyn) = false ∧
+    wdTop Gen.schema 64 Gen.requestMessageDyn
+      (addAttributeMessage (Gen.schema.payloadDyn 0xA false)
+        (Gen.schema.attrDyn [0x43, 0x6F, 0x6D, 0x6D, 0x65, 0x6E, 0x74])) = false := by decide +kernel
 
 /-- a Get response announcing the unregistered object type `freshObject` is an error. -/
 def getResponseId : Nat :=
